@@ -6,11 +6,12 @@ tier=quick
 for a in "$@"; do case "$a" in quick|thorough) tier=$a;; esac; done
 [ -n "$VERIF_TIER" ] && [ "$#" -eq 0 ] && tier=$VERIF_TIER
 build_instr
+W=${C01_WORK:-c01}   # scratch name (another check running this one as a part uses its own)
 (cd "$VERIF_ROOT" && go build -o "$WORK/bin/c01prep" ./checks/c01/prep) || exit 2
-"$WORK/bin/c01prep" "$WORK/c01" "$tier" || exit 2
-rm -rf "$WORK/instr/c01"; mkdir -p "$WORK/instr/c01"
+"$WORK/bin/c01prep" "$WORK/$W" "$tier" || exit 2
+rm -rf "$WORK/instr/$W"; mkdir -p "$WORK/instr/$W"
 subst=()
 if [ -n "$VERIF_SUBST" ]; then IFS=',' read -ra _ss <<< "$VERIF_SUBST"; for s in "${_ss[@]}"; do subst+=(-subst "$s"); done; fi
-"$WORK/bin/instr" -repo "$REPO" -work "$WORK/instr/c01" -overlay "$WORK/c01.overlay.json" "${subst[@]}" $TARS_E1_ARGS || exit 2
-(cd "$WORK/c01/out" && go build -tags verif -overlay "$WORK/c01.overlay.json" -o "$WORK/bin/c01" ./c01drv) || exit 2
-exec "$WORK/bin/c01" "$@"
+"$WORK/bin/instr" -repo "$REPO" -work "$WORK/instr/$W" -overlay "$WORK/$W.overlay.json" "${subst[@]}" $TARS_E1_ARGS || exit 2
+(cd "$WORK/$W/out" && go build -tags verif -overlay "$WORK/$W.overlay.json" -o "$WORK/bin/$W" ./c01drv) || exit 2
+exec "$WORK/bin/$W" "$@"
